@@ -645,6 +645,109 @@ func ruleSemverTable(p *Prog, r *Report) {
 			continue
 		}
 		r.Ok("R-PRE-IDWISE", keyID, p.FnPos(loopFn), fmt.Sprintf("%s zips %s position by position (loop proven a position-wise total preorder)", p.FnKey(loopFn), atoms.E))
+		// ... and nothing in front of or behind that loop decides: apart from the "no pre-release" cases,
+		// every result of the comparator is the sign of the position-wise comparison
+		{
+			c3 := newAECtx(p)
+			keyX := name + ": the pre-release comparison is nothing but the identifier-wise loop"
+			emptyOperand := func(w *world, _ int64) bool {
+				for k := range c3.terms {
+					pool := c3.pools[k]
+					for ci, cv := range pool {
+						isEmpty := cv.Kind() == constant.String && constant.StringVal(cv) == ""
+						if strings.HasPrefix(k, "len(") && cv.Kind() == constant.Int && constant.Sign(cv) == 0 {
+							isEmpty = true
+						}
+						if isEmpty {
+							for ind := 0; ind < 2; ind++ {
+								if pv, ok := w.pos[posKey(k, ind)]; ok && pv == 2*ci+1 {
+									return true
+								}
+							}
+						}
+					}
+				}
+				return false
+			}
+			// the same one level up: with the numeric components equal and both pre-releases present, Compare's
+			// result is the result of that comparator on the pre-release field
+			{
+				c4 := newAECtx(p)
+				keyC := name + ": with equal numeric components Compare returns the pre-release comparison"
+				var cbad []string
+				nc := 0
+				emptyPre := func(w *world) bool {
+					for k := range c4.terms {
+						if !strings.Contains(k, pre) {
+							continue
+						}
+						for ci, cv := range c4.pools[k] {
+							isEmpty := cv.Kind() == constant.String && constant.StringVal(cv) == ""
+							if strings.HasPrefix(k, "len(") && cv.Kind() == constant.Int && constant.Sign(cv) == 0 {
+								isEmpty = true
+							}
+							if isEmpty {
+								for ind := 0; ind < 2; ind++ {
+									if pv, ok := w.pos[posKey(k, ind)]; ok && pv == 2*ci+1 {
+										return true
+									}
+								}
+							}
+						}
+					}
+					return false
+				}
+				nums, _, _ := semverKeys(p, e)
+				ov := map[string]override{"~": {free: true}}
+				for _, nk := range nums {
+					ov[nk] = override{rel: relPtr(0)}
+				}
+				saved := c4.filter
+				c4.filter = c4.tiedExcept(ov)
+				coof := c4.withRetries(e.Compare, func() {
+					cbad, nc = nil, 0
+					c4.explore(2, 300000, func(w *world) {
+						v := c4.runPair(e.Compare, w, 0, 1, nil)
+						nc++
+						seen := false
+						for rk, rv := range w.rel {
+							if (strings.HasPrefix(rk, "stage:") || strings.HasPrefix(rk, "assumed:") || strings.HasPrefix(rk, "zip:")) && strings.Contains(rk, pre) && strings.HasSuffix(rk, "|0|1") {
+								seen = true
+								if int64(rv) != v {
+									cbad = append(cbad, fmt.Sprintf("Compare gives %d where the pre-release comparison gives %d [%s]", v, rv, w.describe(c4.pools, c4.terms)))
+								}
+							}
+						}
+						if !seen && !emptyPre(w) {
+							// the pre-release texts may simply be identical (tie without consulting the comparator)
+							if v == 0 {
+								return
+							}
+							cbad = append(cbad, fmt.Sprintf("the result %d is decided without the pre-release comparison [%s]", v, w.describe(c4.pools, c4.terms)))
+						}
+					})
+				})
+				c4.filter = saved
+				switch {
+				case coof != "":
+					r.Und("R-PRE-EXACT", keyC, p.FnPos(e.Compare), "outside the evaluator's fragment: "+coof)
+				case len(cbad) > 0:
+					sort.Strings(cbad)
+					r.Bad("R-PRE-EXACT", keyC, p.FnPos(e.Compare), fmt.Sprintf("%d of %d abstract worlds, e.g. %s", len(cbad), nc, cbad[0]))
+				default:
+					r.Ok("R-PRE-EXACT", keyC, p.FnPos(e.Compare), fmt.Sprintf("in all %d abstract worlds with equal numeric components and two pre-releases", nc))
+				}
+			}
+			nw, zbad, zoof := zipDecides(c3, st, emptyOperand)
+			switch {
+			case zoof != "":
+				r.Und("R-PRE-EXACT", keyX, p.FnPos(st), "outside the evaluator's fragment: "+zoof)
+			case len(zbad) > 0:
+				r.Bad("R-PRE-EXACT", keyX, p.FnPos(st), fmt.Sprintf("%d abstract worlds, e.g. %s", len(zbad), zbad[0]))
+			default:
+				r.Ok("R-PRE-EXACT", keyX, p.FnPos(st), fmt.Sprintf("in all %d abstract worlds of %s with two non-empty pre-releases the result is the sign of the position-wise comparison", nw, st.Name()))
+			}
+		}
 
 		// the rows of SemVer 11.4 on every abstract world of one position
 		rows := map[string]int{}
@@ -734,6 +837,7 @@ func ruleSemverTable(p *Prog, r *Report) {
 		}
 	}
 	r.Floor("R-PRE-IDWISE", 6)
+	r.Floor("R-PRE-EXACT", 12)
 	r.Floor("R-SEMVER-TABLE", 11)
 	r.Floor("R-NUMID", 5)
 }
